@@ -881,6 +881,10 @@ func (c *MapConverter) To(obj Object) (interface{}, error) {
 		if err != nil {
 			return nil, err
 		}
+		if conv == nil {
+			gMap.SetMapIndex(reflect.ValueOf(k), reflect.Zero(c.valueType))
+			continue
+		}
 		gMap.SetMapIndex(reflect.ValueOf(k), reflect.ValueOf(conv))
 	}
 	return gMap.Interface(), nil
@@ -1033,6 +1037,10 @@ func (c *SliceConverter) To(obj Object) (interface{}, error) {
 		item, err := c.valueConverter.To(v)
 		if err != nil {
 			return nil, errz.TypeErrorf("type error: failed to convert slice element: %v", err)
+		}
+		if item == nil {
+			slice = reflect.Append(slice, reflect.Zero(c.valueType))
+			continue
 		}
 		slice = reflect.Append(slice, reflect.ValueOf(item))
 	}
